@@ -979,6 +979,12 @@ func (s *Service) runWith(wid string, cb func()) {
 	}
 
 	s.mu.Lock()
+	// The service may have begun closing since the state was checked. Adding
+	// to a nil workqueue would revive it and leave the workers waiting forever.
+	if s.workqueue == nil {
+		s.mu.Unlock()
+		return
+	}
 	// Get current work queue for the resource
 	var w *work
 	var ok bool
